@@ -404,6 +404,13 @@ class JobError(Exception):
         super().__init__(f"Job exited with code {code}")
 
 
+#: Experiment locks held by this process. The lock is a POSIX record lock: it
+#: belongs to the process, so a second one on the same file is always granted
+#: and releasing it (closing its descriptor) releases the first one too
+_HELD_XPLOCKS: Set[str] = set()
+_HELD_XPLOCKS_GUARD = threading.Lock()
+
+
 class SignalHandler:
     def __init__(self):
         self.experiments: Set["experiment"] = set()
@@ -1020,7 +1027,22 @@ class experiment:
 
         if self.workspace.run_mode != RunMode.DRY_RUN:
             logger.info("Locking experiment %s", self.xplockpath)
-            self.xplock = self.workspace.connector.lock(self.xplockpath, 0).__enter__()
+            lockkey = os.path.realpath(self.xplockpath)
+            with _HELD_XPLOCKS_GUARD:
+                if lockkey in _HELD_XPLOCKS:
+                    raise RuntimeError(
+                        f"Experiment {self.workdir.name} of {self.workspace.path} "
+                        "is already running in this process"
+                    )
+                _HELD_XPLOCKS.add(lockkey)
+            try:
+                self.xplock = self.workspace.connector.lock(
+                    self.xplockpath, 0
+                ).__enter__()
+            except BaseException:
+                with _HELD_XPLOCKS_GUARD:
+                    _HELD_XPLOCKS.discard(lockkey)
+                raise
             logger.info("Experiment locked")
 
         # Move old jobs into "jobs.bak"
@@ -1110,6 +1132,9 @@ class experiment:
             self.workspace.__exit__(exc_type, exc_value, traceback)
             if self.xplock:
                 self.xplock.__exit__(exc_type, exc_value, traceback)
+                self.xplock = None
+                with _HELD_XPLOCKS_GUARD:
+                    _HELD_XPLOCKS.discard(os.path.realpath(self.xplockpath))
 
             # Put back old experiment as current one
             experiment.CURRENT = self.old_experiment
